@@ -94,6 +94,19 @@ def producers(prog, res):
                 else:
                     res.fail(R, inst + " = header + image bytes", "R-PRODUCER|%s|formula" % f.name, where,
                              "%s does not size the frame region as sizeof(struct VideoFrame) + bytes_of_image(shape)" % f.name)
+                # ... and is at least that large after the rounding
+                hdr_n = [x for x in ir.walk(full) if x.get("k") == "int" and x.get("sizeof_r") == "VideoFrame"]
+                img_n = [x for x in ir.walk(full) if x.get("k") == "call" and x.get("fn") == "bytes_of_image"]
+                if hdr_n and img_n:
+                    okc, lb = congr.covers(full, [hdr_n[0], img_n[0]])
+                    if okc:
+                        res.oblige(R, inst + " >= header + image bytes", True,
+                                   "linear lower bound of the rounded size covers both", where)
+                    else:
+                        res.fail(R, inst + " >= header + image bytes", "R-PRODUCER|%s|covers" % f.name, where,
+                                 "%s reserves %s bytes, which is not provably at least sizeof(struct VideoFrame) + bytes_of_image(shape) "
+                                 "(lower bound: %s %+d): rounding down instead of up leaves the frame's last bytes outside the reserved region"
+                                 % (f.name, ir.render(size), " + ".join("%s*%s" % (v, k) for k, v in lb[0].items()), int(lb[1])))
                 # header fill: .bytes_of_frame = same variable; .shape = S
                 fills = []
                 for bb, ii, ss in f.all_stmts():
@@ -288,6 +301,6 @@ def run(ctx, res):
     if n < 2:
         raise AnalysisBroken("expected two frame producers (source, filter), found %d" % n)
     res.require_min("WITNESS", 7)
-    res.require_min("R-PRODUCER", 9)
+    res.require_min("R-PRODUCER", 11)
     res.require_min("R-STEP", 4)
     res.require_min("T-EXH", 6)
